@@ -7,7 +7,7 @@ import (
 )
 
 // NumTactics is the number of shape constructors Tactic cycles through.
-const NumTactics = 11
+const NumTactics = 12
 
 // flipColors mirrors the position so that shapes are exercised for both colours.
 func maybeFlip(r *rand.Rand, p ref.Pos) ref.Pos {
@@ -333,6 +333,24 @@ func Tactic(r *rand.Rand, i int) (ref.Pos, bool) {
 			putFree(r, &p, []int8{ref.Queen, ref.Rook, ref.Rook, ref.Queen, ref.Bishop, ref.Knight}[r.Intn(6)])
 		}
 		p.White = r.Intn(3) != 0
+	case 11: // stalemate as the weaker side's resource: a king boxed in a corner in front of its own rook pawn
+		f := []int{0, 7}[r.Intn(2)]
+		dir := 1
+		if f == 7 {
+			dir = -1
+		}
+		p.B[ref.Sq(f, 0)] = -ref.King
+		p.B[ref.Sq(f, 1)] = -ref.Pawn
+		wk := [][2]int{{f + 2*dir, 2}, {f + 3*dir, 2}, {f + 3*dir, 1}, {f + 3*dir, 0}, {f + 2*dir, 3}}[r.Intn(5)]
+		p.B[ref.Sq(wk[0], wk[1])] = ref.King
+		if r.Intn(2) == 0 { // more material for the stronger side, away from the corner
+			p.B[ref.Sq(f+5*dir, 4+r.Intn(2))] = -[]int8{ref.Pawn, ref.Knight, ref.Bishop}[r.Intn(3)]
+		}
+		if r.Intn(3) == 0 {
+			p.B[ref.Sq(f+6*dir, 2)] = ref.Pawn
+			p.B[ref.Sq(f+6*dir, 3)] = -ref.Pawn
+		}
+		p.White = true
 	case 10: // a king next to an enemy rook on its home corner while the castling right is still held
 		p.B[ref.Sq(4, 7)] = -ref.King
 		corner := []int{ref.Sq(7, 7), ref.Sq(0, 7)}[r.Intn(2)]
